@@ -782,8 +782,9 @@ func ownershipRules(c *Ctx, r *Report) {
 }
 
 func checkC11(c *Ctx, r *Report) {
-	r.Rules = []string{"W1 deep-fresh plan (points-to)", "W2 prepare boundary / post-prepare-only writes", "W3 Info-own writes idempotent when reachable from ConventionalFileName", "W4 no shared map update, Validate/Get read-only, merge aliasing", "W5 no file-system mutation outside the CLI", "G1 globals written only under the lock", "G2 atomics", "G3 no goroutine", "fixture"}
+	r.Rules = []string{"W1 deep-fresh plan (points-to)", "W2 prepare boundary / post-prepare-only writes", "W3 Info-own writes idempotent when reachable from ConventionalFileName", "W4 no shared map update, Validate/Get read-only, merge aliasing", "W5 no file-system mutation outside the CLI", "G1 globals written only under the lock", "G2 atomics", "G3 no goroutine", "G4 output buffers are fresh and do not escape", "W1-no-inplace-sort caller-owned lists are not reordered in place", "W3-shared-slice no element store / append-on-reslice into configuration lists (template helpers included)", "fixture"}
 	r.Explanation = "Ownership/effect analysis over go/ssa. The channels through which one operation on a parsed configuration could influence a later one are enumerated — memory shared between the Info values Config.Get hands out (slice backing arrays and pointees; maps are re-made), package-level variables, the file system, and reuse of one Info for file name then package — and each is closed structurally: (W1) a field-sensitive inclusion-based points-to analysis of package files proves every *Content of the returned plan and the *ContentFileInfo it holds are allocated during the call and that no store in the planner goes through a caller-owned object; (W2) nfpm.PrepareForPackager replaces info.Contents by that plan and every write to a Content/ContentFileInfo in a packager is only reachable through call sites dominated by the prepare call, never from ConventionalFileName/Validate/Get; (W3) writes to the Info's own fields reachable from ConventionalFileName are override copies, translations through an idempotent table, or default filling; (W4) no update of a map or slice element shared with the configuration, Validate/Get do not write, and no overridable field is a pointer mergo would merge through; (W5) no file-system mutation outside the CLI; (G1-G3) globals only under the lock, atomics consistent, no goroutines. This decides absence of the influence channels; byte identity of the outputs then follows only with C07's assumptions."
+	r.Explanation += " (G4) every buffer under an archive or compressor writer is a fresh local or reset before use, and the bytes of a pooled buffer do not escape. (W1-no-inplace-sort) sort.Sort and its relatives never get a caller-owned list. (W3-shared-slice) parameters of template FuncMap functions count as configuration-owned lists."
 	r.Assumptions = []string{
 		"mergo v1.0.1 semantics: maps are re-made in the destination, slice headers and pointers are copied (sharing their targets), nested pointers are dereferenced and merged in place",
 		"slices produced by the YAML decoder have cap == len, so appending to Info.Contents never writes into the parsed configuration's backing array",
@@ -793,8 +794,9 @@ func checkC11(c *Ctx, r *Report) {
 }
 
 func checkC12(c *Ctx, r *Report) {
-	r.Rules = []string{"W1-W4 no write to memory shared between concurrently packaged Infos", "G1 globals written only under the lock", "G2 atomics", "G3 no goroutine", "fixture"}
+	r.Rules = []string{"W1-W4 no write to memory shared between concurrently packaged Infos", "G1 globals written only under the lock", "G2 atomics", "G3 no goroutine", "G4 output buffers are fresh and do not escape", "W1-no-inplace-sort caller-owned lists are not reordered in place", "W3-shared-slice no element store / append-on-reslice into configuration lists (template helpers included)", "fixture"}
 	r.Explanation = "A data race needs two goroutines, one location and at least one write. The locations two concurrent Package calls (each on the Info obtained for its format) can both reach are the part of the configuration graph that Config.Get shares between Infos, package-level variables, and library internals. The check decides that module code writes none of the first two: the ownership analysis of C11 (points-to for the prepared plan, post-prepare-only content writes, Info-own writes, no shared map/element update) shows no store into memory reachable from two Infos; every package-level variable is written only under the registry lock (unlocked reads of the registry race only with registration, which the property's quantifier excludes) and appended to only when append must copy; fields accessed atomically are accessed only atomically; module code starts no goroutine. Interleavings are not explored: the argument is absence of shared writes."
+	r.Explanation += " (G4) every buffer under an archive or compressor writer is a fresh local or reset before use, and the bytes of a pooled buffer do not escape. (W1-no-inplace-sort) sort.Sort and its relatives never get a caller-owned list. (W3-shared-slice) parameters of template FuncMap functions count as configuration-owned lists."
 	r.Assumptions = []string{
 		"mergo v1.0.1 semantics (see C11)",
 		"pgzip, zstd and go-crypto are internally synchronised (library property)",
